@@ -66,12 +66,36 @@ var profiles = map[string]*profile{
 		fillBias: "threshold", hashers: defaultHashers, cbAlways: false},
 }
 
+// rapid's integer and SampledFrom generators are deliberately biased towards
+// small values (geometric bit length); weights would be distorted badly. Ten fair
+// coin flips give a uniform choice that still shrinks towards the first option.
+var bits10 = rapid.SliceOfN(rapid.Bool(), 10, 10)
+
+func uniform(rt *rapid.T, n int, label string) int {
+	if n <= 1 {
+		return 0
+	}
+	v := 0
+	for _, b := range bits10.Draw(rt, label) {
+		v <<= 1
+		if b {
+			v |= 1
+		}
+	}
+	return v * n / 1024
+}
+
+func pick[T any](rt *rapid.T, xs []T, label string) T { return xs[uniform(rt, len(xs), label)] }
+
+// irange is a uniform integer in [lo,hi] (hi-lo < 1024).
+func irange(rt *rapid.T, lo, hi int, label string) int { return lo + uniform(rt, hi-lo+1, label) }
+
 func pickKind(rt *rapid.T, ws []wk, label string) model.Kind {
 	tot := 0
 	for _, w := range ws {
 		tot += w.w
 	}
-	x := rapid.IntRange(0, tot-1).Draw(rt, label)
+	x := uniform(rt, tot, label)
 	for _, w := range ws {
 		if x < w.w {
 			return w.k
@@ -84,39 +108,39 @@ func pickKind(rt *rapid.T, ws []wk, label string) model.Kind {
 var ttlArgs = []int64{model.NoExpiration, model.DefaultExpiration, 0, -1, 1, 30, 1000, 1000000}
 
 func genSpec(rt *rapid.T, pf *profile) adapt.Spec {
-	kind := rapid.SampledFrom(pf.kinds).Draw(rt, "container")
+	kind := pick(rt, pf.kinds, "container")
 	s := adapt.Spec{Kind: kind}
 	switch kind {
 	case "map":
-		if rapid.IntRange(0, 9).Draw(rt, "presized") == 0 {
-			s.Presize = rapid.SampledFrom([]int{-5, 1, 97, 200}).Draw(rt, "presize")
+		if irange(rt, 0, 9, "presized") == 0 {
+			s.Presize = pick(rt, []int{-5, 1, 97, 200}, "presize")
 		}
 	case "mapof":
-		s.Key = rapid.SampledFrom([]string{"int", "int", "string", "struct"}).Draw(rt, "keytype")
+		s.Key = pick(rt, []string{"int", "int", "string", "struct"}, "keytype")
 		hs := pf.hashers
 		if len(hs) == 0 {
 			hs = []string{""}
 		}
-		s.Hasher = rapid.SampledFrom(hs).Draw(rt, "hasher")
-		if rapid.IntRange(0, 9).Draw(rt, "presized") == 0 {
-			s.Presize = rapid.SampledFrom([]int{-5, 1, 161, 300}).Draw(rt, "presize")
+		s.Hasher = pick(rt, hs, "hasher")
+		if irange(rt, 0, 9, "presized") == 0 {
+			s.Presize = pick(rt, []int{-5, 1, 161, 300}, "presize")
 		}
 	case "cache", "cacheof":
 		if kind == "cacheof" {
-			s.Key = rapid.SampledFrom([]string{"int", "string"}).Draw(rt, "keytype")
+			s.Key = pick(rt, []string{"int", "string"}, "keytype")
 		}
 		if rapid.Bool().Draw(rt, "ctorDefault") {
 			s.Ctor = "default"
-			s.DefExp = rapid.SampledFrom([]int64{0, -1, 40, 5000}).Draw(rt, "defexp")
+			s.DefExp = pick(rt, []int64{0, -1, 40, 5000}, "defexp")
 		} else if rapid.Bool().Draw(rt, "hasdef") {
 			s.HasDef = true
-			s.DefExp = rapid.SampledFrom([]int64{0, 40, 5000}).Draw(rt, "defexp")
+			s.DefExp = pick(rt, []int64{0, 40, 5000}, "defexp")
 		}
 		s.CB = pf.cbAlways || rapid.Bool().Draw(rt, "callback")
 		if s.CB {
-			s.Reenter = uint8(rapid.IntRange(0, 2).Draw(rt, "reenter"))
+			s.Reenter = uint8(irange(rt, 0, 2, "reenter"))
 		}
-		if rapid.IntRange(0, 3).Draw(rt, "janitorCfg") == 0 {
+		if irange(rt, 0, 3, "janitorCfg") == 0 {
 			s.Cleanup = 10000000000
 		}
 	}
@@ -136,36 +160,36 @@ func genFill(rt *rapid.T, pf *profile, s adapt.Spec) (fill, keep int) {
 	grow, shr := thresholds(s)
 	if s.Hasher == "const" || s.Hasher == "samebucket" {
 		// one chain: small fills build every chain shape; big fills reach the grow threshold
-		c := rapid.IntRange(0, 9).Draw(rt, "fillClass")
+		c := irange(rt, 0, 9, "fillClass")
 		switch {
 		case c < 2:
 			return 0, 0
 		case c < 6:
-			f := rapid.IntRange(1, 12).Draw(rt, "fill")
+			f := irange(rt, 1, 12, "fill")
 			return f, f
 		case c < 8:
-			f := rapid.IntRange(grow-2, grow+6).Draw(rt, "fill")
+			f := irange(rt, grow-2, grow+6, "fill")
 			return f, f
 		default:
-			f := rapid.IntRange(grow+2, grow+10).Draw(rt, "fill")
-			return f, rapid.IntRange(0, 2).Draw(rt, "keep")
+			f := irange(rt, grow+2, grow+10, "fill")
+			return f, irange(rt, 0, 2, "keep")
 		}
 	}
-	c := rapid.IntRange(0, 9).Draw(rt, "fillClass")
+	c := irange(rt, 0, 9, "fillClass")
 	switch {
 	case c < 2:
 		return 0, 0
 	case c < 4:
-		f := rapid.IntRange(1, 24).Draw(rt, "fill")
+		f := irange(rt, 1, 24, "fill")
 		return f, f
 	case c < 8:
 		// around the grow threshold: chains are full and the next chain-full insert grows the table
-		f := rapid.IntRange(grow-12, grow+24).Draw(rt, "fill")
+		f := irange(rt, grow-12, grow+24, "fill")
 		return f, f
 	default:
 		// grown once, then emptied: the phase's deletes trigger the shrink
-		f := rapid.IntRange(shr, shr+16).Draw(rt, "fill")
-		return f, rapid.IntRange(0, 3).Draw(rt, "keep")
+		f := irange(rt, shr, shr+16, "fill")
+		return f, irange(rt, 0, 3, "keep")
 	}
 }
 
@@ -174,10 +198,10 @@ func genProgram(rt *rapid.T, pf *profile) *Program {
 	p.Spec = genSpec(rt, pf)
 	p.Layout = rapid.Uint64().Draw(rt, "layoutSeed")
 	p.Seed = rapid.Uint64().Draw(rt, "schedSeed")
-	p.Hot = rapid.IntRange(1, pf.hotMax).Draw(rt, "hot")
+	p.Hot = irange(rt, 1, pf.hotMax, "hot")
 	p.Fill, p.Keep = genFill(rt, pf, p.Spec)
 	if pf.fillBias == "threshold" && p.Spec.Hasher != "const" && p.Spec.Hasher != "samebucket" && p.Spec.Presize <= 96 {
-		switch rapid.IntRange(0, 9).Draw(rt, "mode") {
+		switch irange(rt, 0, 9, "mode") {
 		case 0, 1, 2:
 			p.Mode = "grow"
 			grow, _ := thresholds(p.Spec)
@@ -185,7 +209,7 @@ func genProgram(rt *rapid.T, pf *profile) *Program {
 		case 3, 4:
 			p.Mode = "shrink"
 			p.Fill = 1
-			p.Keep = rapid.IntRange(0, 1).Draw(rt, "keep")
+			p.Keep = irange(rt, 0, 1, "keep")
 			if p.Hot < 2 {
 				p.Hot = 2
 			}
@@ -209,7 +233,7 @@ func genProgram(rt *rapid.T, pf *profile) *Program {
 			continue
 		}
 		if isCache {
-			switch rapid.IntRange(0, 5).Draw(rt, "init") {
+			switch irange(rt, 0, 5, "init") {
 			case 0: // absent
 			case 1:
 				p.Pre = append(p.Pre, model.Op{K: model.CSetForever, Key: k, Val: val()})
@@ -217,23 +241,23 @@ func genProgram(rt *rapid.T, pf *profile) *Program {
 				p.Pre = append(p.Pre, model.Op{K: model.CSet, Key: k, Val: val(), D: 100}) // stays live
 				expiring = true
 			default: // expired-uncleaned by the time the phase starts
-				p.Pre = append(p.Pre, model.Op{K: model.CSet, Key: k, Val: val(), D: int64(rapid.IntRange(1, 50).Draw(rt, "shortTTL"))})
+				p.Pre = append(p.Pre, model.Op{K: model.CSet, Key: k, Val: val(), D: int64(irange(rt, 1, 50, "shortTTL"))})
 				expiring = true
 			}
-		} else if rapid.IntRange(0, 2).Draw(rt, "init") > 0 {
+		} else if irange(rt, 0, 2, "init") > 0 {
 			p.Pre = append(p.Pre, model.Op{K: model.MStore, Key: k, Val: val()})
 		}
 	}
 	if expiring {
 		p.Pre = append(p.Pre, model.Op{K: model.HAdvance, D: 51})
-		if rapid.IntRange(0, 4).Draw(rt, "preTouch") == 0 {
+		if irange(rt, 0, 4, "preTouch") == 0 {
 			// a read that may or may not have cleaned an expired entry
-			p.Pre = append(p.Pre, model.Op{K: model.CGet, Key: rapid.IntRange(0, p.Hot-1).Draw(rt, "touchKey")})
+			p.Pre = append(p.Pre, model.Op{K: model.CGet, Key: irange(rt, 0, p.Hot-1, "touchKey")})
 		}
 	}
-	nthr := rapid.IntRange(pf.thrMin, pf.thrMax).Draw(rt, "threads")
+	nthr := irange(rt, pf.thrMin, pf.thrMax, "threads")
 	for t := 0; t < nthr; t++ {
-		nops := rapid.IntRange(1, pf.opsMax).Draw(rt, "nops")
+		nops := irange(rt, 1, pf.opsMax, "nops")
 		var ops []model.Op
 		for i := 0; i < nops; i++ {
 			var o model.Op
@@ -244,29 +268,29 @@ func genProgram(rt *rapid.T, pf *profile) *Program {
 			}
 			if pf.traverser && t == 0 && i == 0 {
 				if isCache {
-					o.K = rapid.SampledFrom([]model.Kind{model.CRange, model.CItems}).Draw(rt, "trav")
+					o.K = pick(rt, []model.Kind{model.CRange, model.CItems}, "trav")
 				} else {
 					o.K = model.MRange
 				}
 			}
 			if !pf.oneKey {
-				o.Key = rapid.IntRange(0, p.Hot-1).Draw(rt, "key")
+				o.Key = irange(rt, 0, p.Hot-1, "key")
 			}
 			if i == 0 && t == nthr-1 && p.Mode == "grow" {
 				// the grow trigger: an insert of absent k0
 				o.Key = 0
 				if isCache {
-					o.K = rapid.SampledFrom([]model.Kind{model.CSet, model.CGetOrSet, model.CGetAndSet, model.CGetOrCompute, model.CCompute}).Draw(rt, "trigger")
+					o.K = pick(rt, []model.Kind{model.CSet, model.CGetOrSet, model.CGetAndSet, model.CGetOrCompute, model.CCompute}, "trigger")
 				} else {
-					o.K = rapid.SampledFrom([]model.Kind{model.MStore, model.MLoadOrStore, model.MLoadAndStore, model.MLoadOrCompute, model.MCompute}).Draw(rt, "trigger")
+					o.K = pick(rt, []model.Kind{model.MStore, model.MLoadOrStore, model.MLoadAndStore, model.MLoadOrCompute, model.MCompute}, "trigger")
 				}
 			}
 			if i == 0 && p.Mode == "shrink" && (t == nthr-1 || rapid.Bool().Draw(rt, "alsoDelete")) {
 				o.Key = t % p.Hot
 				if isCache {
-					o.K = rapid.SampledFrom([]model.Kind{model.CDelete, model.CGetAndDelete, model.CCompute}).Draw(rt, "trigger")
+					o.K = pick(rt, []model.Kind{model.CDelete, model.CGetAndDelete, model.CCompute}, "trigger")
 				} else {
-					o.K = rapid.SampledFrom([]model.Kind{model.MDelete, model.MLoadAndDelete, model.MCompute}).Draw(rt, "trigger")
+					o.K = pick(rt, []model.Kind{model.MDelete, model.MLoadAndDelete, model.MCompute}, "trigger")
 				}
 			}
 			switch o.K {
@@ -274,18 +298,18 @@ func genProgram(rt *rapid.T, pf *profile) *Program {
 				o.Val = val()
 			case model.MCompute:
 				o.Val = val()
-				o.Fn = uint8(rapid.IntRange(0, 3).Draw(rt, "fn"))
+				o.Fn = uint8(irange(rt, 0, 3, "fn"))
 			case model.CSet, model.CGetOrSet, model.CGetAndSet, model.CGetOrCompute:
 				o.Val = val()
-				o.D = rapid.SampledFrom(ttlArgs).Draw(rt, "ttl")
+				o.D = pick(rt, ttlArgs, "ttl")
 			case model.CCompute:
 				o.Val = val()
-				o.Fn = uint8(rapid.IntRange(0, 3).Draw(rt, "fn"))
-				o.D = rapid.SampledFrom(ttlArgs).Draw(rt, "ttl")
+				o.Fn = uint8(irange(rt, 0, 3, "fn"))
+				o.D = pick(rt, ttlArgs, "ttl")
 			case model.CGetAndRefresh:
-				o.D = rapid.SampledFrom(ttlArgs).Draw(rt, "ttl")
+				o.D = pick(rt, ttlArgs, "ttl")
 			case model.CSetDefaultExp:
-				o.D = rapid.SampledFrom([]int64{model.NoExpiration, 0, 25, 777}).Draw(rt, "newDefault")
+				o.D = pick(rt, []int64{model.NoExpiration, 0, 25, 777}, "newDefault")
 			}
 			if i == 0 && p.Mode == "grow" && t == nthr-1 && (o.K == model.MCompute || o.K == model.CCompute) {
 				o.Fn = model.FnStore
